@@ -19,6 +19,7 @@ LEVEL_TEXT = ('static taint / def-use and ordering rules on SystemClock._run, Te
               'jitter or float exactness.')
 LEVEL_NOTE = 'timing itself is not decided; assumes local assignments are the only dataflow inside the analysed functions'
 LEVEL_TEXT_ADD = ' Also: queued times are passed through untransformed (C05.exact).'
+LEVEL_TEXT_ADD += ' Rounds e-f: the NRT task re-schedules from its stored beat; the scheduler queues keep the priority-queue contract (shared with C09).'
 LEVEL_TEXT = (globals().get('LEVEL_TEXT') or EXPLANATION) + LEVEL_TEXT_ADD
 TECHNIQUE = 'static analysis: intra-procedural taint (physical-time sources) + must-precede ordering on enumerated paths'
 
